@@ -22,6 +22,7 @@ N10 helper(args) as a statement, helper a short loop-free statement sequence of 
                                  ->  its statements with the arguments substituted and its locals renamed
 N11 NAME (module-level, bound once to an int / str literal, not a name the rules know) -> the literal
 N12 str('lit') -> 'lit'; int(<int expression>) -> the expression; bool(<comparison>) and bool(x) in a condition -> x
+N13 x: T = v -> x = v (annotated locals)
 N8  list(reversed(x)) -> x[::-1];  sorted(d.keys()) / for k in d.keys() / k in d.keys()  ->  without .keys()
 """
 import ast
@@ -374,6 +375,15 @@ def _n4_unroll(st, func):
         for s in st.body:
             out.append(_Subst(mapping).visit(copy.deepcopy(s)))
     return out
+
+
+def _n13_annassign(st):
+    """x: T = v  ->  x = v ;  x: T  ->  pass   (annotations of locals are never evaluated)"""
+    if isinstance(st, ast.AnnAssign) and isinstance(st.target, ast.Name):
+        if st.value is None:
+            return [_loc(ast.Pass(), st)]
+        return [_assign(st.target, st.value, st)]
+    return None
 
 
 def _block_rewrite(func, fn):
@@ -798,6 +808,9 @@ def normalise(tree, ctx=None, mname='', aliases=None, enabled=None):
                 if inl.done:
                     bump('N5')
                     changed = True
+            if on('N13') and _block_rewrite(func, _n13_annassign):
+                bump('N13')
+                changed = True
             if on('N3') and _block_rewrite(func, _n3_dictcomp):
                 bump('N3')
                 changed = True
